@@ -180,6 +180,26 @@ def rebuild(t, share_tokens=True, relabel=None):
     return Tree.make_binary(t.cat, ch[0], ch[1], t.op_string, t.op_symbol, t.head_is_left)
 
 
+def fresh(batch):
+    """structurally equal batch made of new Tree / Token objects; Token objects shared inside the batch stay shared (what
+    copy.deepcopy would give, without its recursion depth of several frames per tree level)"""
+    memo = {}
+
+    def tok(t):
+        if id(t) not in memo:
+            memo[id(t)] = Token(**t)
+        return memo[id(t)]
+
+    def rec(t):
+        if t.is_leaf:
+            return Tree.make_terminal(tok(t.token), t.cat, t.op_string, t.op_symbol)
+        ch = [rec(c) for c in t.children]
+        if len(ch) == 1:
+            return Tree.make_unary(t.cat, ch[0], t.op_string, t.op_symbol)
+        return Tree.make_binary(t.cat, ch[0], ch[1], t.op_string, t.op_symbol, t.head_is_left)
+    return [[ScoredTree(rec(st.tree), st.score) for st in sent] for sent in batch]
+
+
 def score(rng):
     return -rng.randint(0, 1023) / 8.0
 
